@@ -1462,3 +1462,201 @@ Example ex_as4 :
   exists w, attrs_2byte {| a_code := 2; a_flags := 64; a_data := ABin [2; 2; 0; 1; 17; 112; 0; 0; 253; 233] |} = Ok w
             /\ length w = 2%nat.
 Proof. eexists. split; [vm_compute; reflexivity | reflexivity]. Qed.
+
+(* ------------------------------------------------------------------ the encoder does not refuse what fits *)
+Lemma put_entries_total p limit ap wd es : forall cur,
+  Forall (fun e => exists b, enc_pnlri p ap wd e = Ok b) es ->
+  exists r, put_entries p limit ap wd cur es = Ok r.
+Proof.
+  induction es as [|e es IH]; intros cur H; cbn [put_entries]; [eauto|].
+  inversion H as [|? ? [b Hb] Hes]; subst. rewrite Hb. cbn [bind].
+  destruct (cur + len b <=? limit); [|eauto].
+  destruct (IH (cur + len b) Hes) as [r Hr]. rewrite Hr. cbn [bind]. eauto.
+Qed.
+
+Lemma put_entries_first p limit ap wd cur e es b bytes n :
+  enc_pnlri p ap wd e = Ok b -> cur + len b <= limit ->
+  put_entries p limit ap wd cur (e :: es) = Ok (bytes, n) -> n <> O.
+Proof.
+  intros Hb Hfit H. cbn [put_entries] in H. rewrite Hb in H. cbn [bind] in H.
+  replace (cur + len b <=? limit) with true in H by (symmetry; apply N.leb_le; exact Hfit).
+  apply bind_ok in H as [r' [_ H]]. apply Ok_inj in H. inversion H. discriminate.
+Qed.
+
+Lemma max_len_ge c : 4096 <= max_len c.
+Proof. unfold max_len. destruct (ext_len c); lia. Qed.
+
+(* one wire message of a withdrawal: produced, within the limit, and it makes progress *)
+Lemma unreach_step p c f es0 es :
+  Forall (fun e => exists b, enc_pnlri p (addpath_for c f) true e = Ok b /\ len b <= 4000) es ->
+  exists fr n, do_encode p c (MUnreach f es0) es = Ok (fr, n) /\ len fr <= max_len c /\ (es <> [] -> n <> O).
+Proof.
+  intros Hall. pose proof (max_len_ge c) as Hge. pose proof (max_len_le c) as Hle.
+  assert (Hall' : Forall (fun e => exists b, enc_pnlri p (addpath_for c f) true e = Ok b) es).
+  { eapply Forall_impl; [|exact Hall]. intros e [b [Hb _]]. eauto. }
+  cbn [do_encode]. destruct ((f =? F_IPV4) && negb (ext_nh c)).
+  - destruct (put_entries_total p (max_len c - 2) (addpath_for c f) true es (18 + 3) Hall') as [[eb en] Hr].
+    rewrite Hr. cbn [bind fst snd]. eexists. eexists. split; [reflexivity|].
+    destruct (put_entries_spec _ _ _ _ _ _ _ _ Hr) as [bs [_ [Heb [_ Hlim]]]].
+    split.
+    + rewrite len_frame_of, !len_app, len_be16. change (len [2]) with 1. change (len [0; 0]) with 2.
+      destruct en as [|en'].
+      * destruct es as [|e es']; [cbn [put_entries] in Hr; apply Ok_inj in Hr; inversion Hr; subst; rewrite len_nil; lia|].
+        cbn [put_entries] in Hr. inversion Hall as [|? ? [b [Hb Hb4]] _]; subst. rewrite Hb in Hr. cbn [bind] in Hr.
+        replace (18 + 3 + len b <=? max_len c - 2) with true in Hr by (symmetry; apply N.leb_le; lia).
+        apply bind_ok in Hr as [r' [_ Hr]]. apply Ok_inj in Hr. inversion Hr.
+      * specialize (Hlim ltac:(discriminate)). lia.
+    + intros Hne. destruct es as [|e es']; [congruence|].
+      inversion Hall as [|? ? [b [Hb Hb4]] _]; subst.
+      eapply put_entries_first; [exact Hb | | exact Hr]. lia.
+  - unfold mp_unreach.
+    destruct (put_entries_total p (max_len c) (addpath_for c f) true es (18 + 5 + 4 + len (be16 (afi f) ++ [safi f])) Hall') as [[eb en] Hr].
+    rewrite Hr. cbn [bind fst snd].
+    destruct (put_entries_spec _ _ _ _ _ _ _ _ Hr) as [bs [_ [Heb [_ Hlim]]]].
+    change (len (be16 (afi f) ++ [safi f])) with 3 in *.
+    assert (Hbound : 18 + 5 + 4 + 3 + len eb <= max_len c).
+    { destruct en as [|en'].
+      - destruct es as [|e es']; [cbn [put_entries] in Hr; apply Ok_inj in Hr; inversion Hr; subst; rewrite len_nil; lia|].
+        cbn [put_entries] in Hr. inversion Hall as [|? ? [b [Hb Hb4]] _]; subst. rewrite Hb in Hr. cbn [bind] in Hr.
+        replace (18 + 5 + 4 + 3 + len b <=? max_len c) with true in Hr by (symmetry; apply N.leb_le; lia).
+        apply bind_ok in Hr as [r' [_ Hr]]. apply Ok_inj in Hr. inversion Hr.
+      - specialize (Hlim ltac:(discriminate)). lia. }
+    rewrite trunc16_small by lia. unfold sub16.
+    replace (4 <=? 4 + 3 + len eb) with true by (symmetry; apply N.leb_le; lia). cbn [bind].
+    eexists. eexists. split; [reflexivity|]. split.
+    + rewrite len_frame_of, !len_app, !len_be16. change (len [2; 0; 0]) with 3. change (len [144; 15]) with 2.
+      change (len [safi f]) with 1. lia.
+    + intros Hne. destruct es as [|e es']; [congruence|].
+      inversion Hall as [|? ? [b [Hb Hb4]] _]; subst.
+      eapply put_entries_first; [exact Hb | | exact Hr]. lia.
+Qed.
+
+Theorem C04_unreach_never_refused :
+  forall (p : profile) (c : codec) (f : N) (es : list pnlri),
+    Forall (fun e => exists b, enc_pnlri p (addpath_for c f) true e = Ok b /\ len b <= 4000) es ->
+    exists frames, encode_to p c (MUnreach f es) = Ok frames.
+Proof.
+  intros p c f es Hall. unfold encode_to. cbn [entries_of].
+  assert (Hgen : forall fuel es', (length es' < fuel)%nat ->
+            Forall (fun e => exists b, enc_pnlri p (addpath_for c f) true e = Ok b /\ len b <= 4000) es' ->
+            exists frames, enc_loop fuel p c (MUnreach f es) es' = Ok frames).
+  { induction fuel as [|k IH]; intros es' Hfuel Hes'; [lia|]. cbn [enc_loop].
+    destruct (unreach_step p c f es es' Hes') as [fr [n [Hd [Hlen Hprog]]]].
+    rewrite Hd. cbn [bind fst snd].
+    replace (max_len c <? len fr) with false by (symmetry; apply N.ltb_ge; exact Hlen).
+    destruct (skipn n es') as [|e rest] eqn:Hs; [eauto|].
+    assert (Hne : es' <> []) by (intros E; subst es'; rewrite skipn_nil in Hs; discriminate).
+    specialize (Hprog Hne). destruct n as [|n']; [congruence|].
+    destruct (IH (e :: rest)) as [tl Htl].
+    - rewrite <- Hs, skipn_length. destruct es'; [congruence|]. cbn [length] in *. lia.
+    - rewrite <- Hs. apply Forall_skipn. exact Hes'.
+    - rewrite Htl. cbn [bind]. eauto. }
+  apply Hgen; [lia | exact Hall].
+Qed.
+
+Lemma mp_nexthop_len f nh :
+  match nh with Some b => blen b < 248 | None => True end -> len (mp_nexthop f nh) <= 256.
+Proof.
+  intros H. destruct (mp_nexthop_shape f nh H) as [bytes [-> Hb]]. rewrite len_cons. change (len bytes) with (blen bytes). lia.
+Qed.
+
+Lemma put_entries_bound p limit ap wd cur es bytes n :
+  Forall (fun e => exists b, enc_pnlri p ap wd e = Ok b /\ cur + len b <= limit) (firstn 1 es) ->
+  put_entries p limit ap wd cur es = Ok (bytes, n) ->
+  (cur <= limit -> cur + len bytes <= limit) /\ (es <> [] -> n <> O).
+Proof.
+  intros Hfirst Hr.
+  destruct (put_entries_spec _ _ _ _ _ _ _ _ Hr) as [bs [_ [Heb [_ Hlim]]]].
+  destruct es as [|e es'].
+  - cbn [put_entries] in Hr. apply Ok_inj in Hr. inversion Hr; subst. rewrite len_nil. split; [lia | congruence].
+  - cbn [firstn] in Hfirst. inversion Hfirst as [|? ? [b [Hb Hfit]] _]; subst.
+    pose proof (put_entries_first _ _ _ _ _ _ _ _ _ _ Hb Hfit Hr) as Hn.
+    split; [intros _; apply Hlim; exact Hn | intros _; exact Hn].
+Qed.
+
+Lemma enc_attr_nexthop b : len b = 4 -> enc_attr (mk_bin 3 b) = Ok ([64; 3; 4] ++ b).
+Proof.
+  intros H. unfold enc_attr, mk_bin, a_binary, a_value. cbn [a_code a_flags a_data].
+  change (canonical_flags 3) with (Some 64). cbn [N.eqb Pos.eqb orb]. rewrite H. reflexivity.
+Qed.
+
+(* one wire message of an announcement: produced, within the limit, and it makes progress,
+   provided the attributes encode and leave 1300 octets, and every entry encodes to <= 1000 *)
+Lemma reach_step p c f nh attrs es0 es ab acc :
+  enc_attrs (two_byte c) 0 attrs = Ok (ab, acc) -> len ab + 1300 <= max_len c ->
+  match nh with Some b => blen b < 40 | None => True end ->
+  Forall (fun e => exists b, enc_pnlri p (addpath_for c f) false e = Ok b /\ len b <= 1000) es ->
+  exists fr n, do_encode p c (MReach f nh attrs es0) es = Ok (fr, n) /\ len fr <= max_len c /\ (es <> [] -> n <> O).
+Proof.
+  intros Ha Hroom Hnh Hall. pose proof (max_len_le c) as Hle.
+  assert (Hall' : Forall (fun e => exists b, enc_pnlri p (addpath_for c f) false e = Ok b) es).
+  { eapply Forall_impl; [|exact Hall]. intros e [b [Hb _]]. eauto. }
+  cbn [do_encode]. rewrite Ha. cbn [bind fst snd].
+  destruct ((f =? F_IPV4) && negb (ext_nh c)).
+  - (* legacy form *)
+    assert (Hn : exists nb nacc, (match es, nh with
+                 | _ :: _, Some b => if len b =? 4 then enc_attr_list acc [mk_bin 3 b] else Ok ([], acc)
+                 | _, _ => Ok ([], acc) end) = Ok (nb, nacc) /\ len nb <= 7).
+    { destruct es as [|e0 es']; [exists [], acc; split; [reflexivity | rewrite len_nil; lia]|].
+      destruct nh as [b|]; [|exists [], acc; split; [reflexivity | rewrite len_nil; lia]].
+      destruct (len b =? 4) eqn:E4; [|exists [], acc; split; [reflexivity | rewrite len_nil; lia]].
+      apply N.eqb_eq in E4. cbn [enc_attr_list]. rewrite (enc_attr_nexthop b E4). cbn [bind fst snd].
+      eexists. eexists. split; [reflexivity|].
+      rewrite app_nil_r, len_app, E4. change (len [64; 3; 4]) with 3. lia. }
+    destruct Hn as [nb [nacc [Hn Hnb]]]. rewrite Hn. cbn [bind fst snd].
+    set (pre := [2; 0; 0] ++ be16 (trunc16 nacc) ++ ab ++ nb).
+    assert (Hpre : len pre = 5 + len ab + len nb).
+    { subst pre. rewrite !len_app, len_be16. change (len [2; 0; 0]) with 3. lia. }
+    destruct (put_entries_total p (max_len c) (addpath_for c f) false es (18 + len pre) Hall') as [[eb en] Hr].
+    rewrite Hr. cbn [bind fst snd]. eexists. eexists. split; [reflexivity|].
+    assert (Hf1 : Forall (fun e => exists b, enc_pnlri p (addpath_for c f) false e = Ok b /\ 18 + len pre + len b <= max_len c) (firstn 1 es)).
+    { destruct es as [|e es']; [constructor|]. cbn [firstn]. inversion Hall as [|? ? [b [Hb Hb4]] _]; subst.
+      constructor; [|constructor]. exists b. split; [exact Hb | lia]. }
+    destruct (put_entries_bound _ _ _ _ _ _ _ _ Hf1 Hr) as [Hb1 Hb2].
+    split; [|exact Hb2].
+    rewrite len_frame_of, len_app. specialize (Hb1 ltac:(lia)). lia.
+  - (* multiprotocol form *)
+    unfold mp_reach.
+    set (head := be16 (afi f) ++ [safi f] ++ mp_nexthop f nh ++ [0]).
+    assert (Hhead : len head <= 260).
+    { subst head. rewrite !len_app, len_be16. change (len [safi f]) with 1. change (len [0]) with 1.
+      assert (Hx : len (mp_nexthop f nh) <= 256).
+      { apply mp_nexthop_len. destruct nh; [lia | exact I]. }
+      lia. }
+    destruct (put_entries_total p (max_len c) (addpath_for c f) false es (18 + 5 + len ab + 4 + len head) Hall') as [[eb en] Hr].
+    rewrite Hr. cbn [bind fst snd].
+    assert (Hf1 : Forall (fun e => exists b, enc_pnlri p (addpath_for c f) false e = Ok b /\ 18 + 5 + len ab + 4 + len head + len b <= max_len c) (firstn 1 es)).
+    { destruct es as [|e es']; [constructor|]. cbn [firstn]. inversion Hall as [|? ? [b [Hb Hb4]] _]; subst.
+      constructor; [|constructor]. exists b. split; [exact Hb | lia]. }
+    destruct (put_entries_bound _ _ _ _ _ _ _ _ Hf1 Hr) as [Hb1 Hb2].
+    specialize (Hb1 ltac:(lia)).
+    rewrite trunc16_small by lia. unfold sub16.
+    replace (4 <=? 4 + len head + len eb) with true by (symmetry; apply N.leb_le; lia). cbn [bind].
+    eexists. eexists. split; [reflexivity|]. split; [|exact Hb2].
+    rewrite len_frame_of, !len_app, !len_be16. change (len [2; 0; 0]) with 3. change (len [144; 14]) with 2. lia.
+Qed.
+
+Theorem C04_reach_never_refused :
+  forall (p : profile) (c : codec) (f : N) (nh : option (list N)) (attrs : list attr) (es : list pnlri) (ab : list N) (acc : N),
+    enc_attrs (two_byte c) 0 attrs = Ok (ab, acc) -> len ab + 1300 <= max_len c ->
+    match nh with Some b => blen b < 40 | None => True end ->
+    Forall (fun e => exists b, enc_pnlri p (addpath_for c f) false e = Ok b /\ len b <= 1000) es ->
+    exists frames, encode_to p c (MReach f nh attrs es) = Ok frames.
+Proof.
+  intros p c f nh attrs es ab acc Ha Hroom Hnh Hall. unfold encode_to. cbn [entries_of].
+  assert (Hgen : forall fuel es', (length es' < fuel)%nat ->
+            Forall (fun e => exists b, enc_pnlri p (addpath_for c f) false e = Ok b /\ len b <= 1000) es' ->
+            exists frames, enc_loop fuel p c (MReach f nh attrs es) es' = Ok frames).
+  { induction fuel as [|k IH]; intros es' Hfuel Hes'; [lia|]. cbn [enc_loop].
+    destruct (reach_step p c f nh attrs es es' ab acc Ha Hroom Hnh Hes') as [fr [n [Hd [Hlen Hprog]]]].
+    rewrite Hd. cbn [bind fst snd].
+    replace (max_len c <? len fr) with false by (symmetry; apply N.ltb_ge; exact Hlen).
+    destruct (skipn n es') as [|e rest] eqn:Hs; [eauto|].
+    assert (Hne : es' <> []) by (intros E; subst es'; rewrite skipn_nil in Hs; discriminate).
+    specialize (Hprog Hne). destruct n as [|n']; [congruence|].
+    destruct (IH (e :: rest)) as [tl Htl].
+    - rewrite <- Hs, skipn_length. destruct es'; [congruence|]. cbn [length] in *. lia.
+    - rewrite <- Hs. apply Forall_skipn. exact Hes'.
+    - rewrite Htl. cbn [bind]. eauto. }
+  apply Hgen; [lia | exact Hall].
+Qed.
